@@ -850,7 +850,15 @@ class Prims:
             for cond in g.ifs:
                 c = self.eval1(ex, cond, s)
                 if is_sym(c):
-                    raise Unsupported("symbolic filter in a dict comprehension")
+                    # decided by the path condition? (as for list comprehensions)
+                    cb = zbool(c)
+                    s_t, s_f = s.fork(), s.fork()
+                    s_t.assume(cb)
+                    s_f.assume(z3.Not(cb))
+                    ft, ff = ex.feasible(s_t), ex.feasible(s_f)
+                    if ft and ff:
+                        raise Unsupported("symbolic filter in a dict comprehension")
+                    c = ft
                 ok = ok and bool(c)
             if ok:
                 kk = self.eval1(ex, node.key, s)
